@@ -39,6 +39,12 @@ def gen(tier, rng):
         kind = rng.choice(["probe", "probe", "probe", "probe", "family", "ec"])
         nd = rng.choice([1, 2, 2, 3, 3, 4]) if kind == "probe" else (rng.choice([1, 2, 2, 3]) if kind == "ec" else rng.choice([2, 3, 3]))
         shape = [rng.choice([4, 5, 6, 8]) for _ in range(nd)]
+        mesh = None
+        if kind == "ec" and nd >= 2 and rng.random() < 0.35:
+            # a meshed SkyCoord table: longitude along one array axis, latitude along another (one object, two
+            # independent components); the mesh is square, so the two axes are equally long
+            mesh = rng.sample(range(nd), 2)
+            shape[mesh[1]] = shape[mesh[0]]
         A, groups = _blocks(rng, nd)
         b = [rng.randrange(-3, 4) for _ in range(nd)]
         npts = rng.choice([1, 2, 2, 3, 4, 6])
@@ -71,14 +77,17 @@ def gen(tier, rng):
         if kind == "ec":
             for t in range(rng.choice([1, 2])):
                 tabs.append([rng.randrange(nd), rng.choice([1, 2, 3]), rng.randrange(0, 5)])
+            if mesh:
+                tabs = [t for t in tabs if t[0] not in mesh][:1]
+                none_groups = []
         unset = kind == "family" and rng.random() < 0.35      # a FITS WCS never evaluated before the cube is cropped
-        key = f"{kind}|{fam}|{shape}|{A}|{b}|{pts}|{none_groups}|{form}|{bad}|{keepdims}|{tabs}|{all_none}|{unset}"
+        key = f"{kind}|{fam}|{shape}|{A}|{b}|{pts}|{none_groups}|{form}|{bad}|{keepdims}|{tabs}|{all_none}|{unset}|{mesh}"
         cases.append({"key": key, "stratum": kind if not bad else "malformed", "kind": kind, "fam": fam, "shape": shape, "A": A, "b": b,
                       "groups": groups, "none_groups": none_groups, "pts": pts, "form": form, "bad": bad, "all_none": all_none,
-                      "keepdims": keepdims, "tabs": tabs, "unset": unset, "wcsname": rng.choice(["extra_coords", "combined_wcs"]) if kind == "ec" else "wcs",
+                      "keepdims": keepdims, "tabs": tabs, "mesh": mesh, "unset": unset, "wcsname": rng.choice(["extra_coords", "combined_wcs"]) if kind == "ec" else "wcs",
                       "nontrivial": True,
                       "show": {"wcs": kind, "family": fam, "shape": shape, "A": A, "b": b, "pixel_positions_of_points": pts,
-                               "groups_left_None": "ALL" if all_none else none_groups, "form": form, "malformed": bad, "keepdims": keepdims, "extra_coords": tabs, "wcs_never_evaluated_before": unset}})
+                               "groups_left_None": "ALL" if all_none else none_groups, "form": form, "malformed": bad, "keepdims": keepdims, "extra_coords": tabs, "meshed_skycoord_on_axes": mesh, "wcs_never_evaluated_before": unset}})
     return cases
 
 
@@ -94,6 +103,12 @@ def build(case):
     cube = NDCube(np.arange(int(np.prod(shape))).reshape(shape), wcs=wcs)
     for k, (ax, slope, icpt) in enumerate(case["tabs"]):
         cube.extra_coords.add(f"e{k}", ax, (np.arange(shape[ax]) * slope + icpt) * u.m, physical_types=f"custom:e{k}")
+    if case.get("mesh"):
+        from astropy.coordinates import SkyCoord
+        from ndcube.extra_coords.table_coord import SkyCoordTableCoordinate
+        a, b = case["mesh"]
+        n = shape[a]
+        cube.extra_coords.add(("lon", "lat"), (a, b), SkyCoordTableCoordinate(SkyCoord((np.arange(n) * 2.0 + 1) * u.deg, (np.arange(n) * 3.0 - 8) * u.deg), mesh=True))
     return cube
 
 
